@@ -17,9 +17,13 @@ CONSTANTS Levels, Pick          \* Pick = "all": every declaration at every leve
 
 GS == INSTANCE GenSchema
 
-F(x) == [n |-> Codes(x), mem |-> FALSE, rep |-> FALSE]
-M(x) == [n |-> Codes(x), mem |-> TRUE, rep |-> FALSE]
-Dcl(fs, o, ns) == [fields |-> fs, oname |-> o, nested |-> ns, enums |-> <<>>]
+F(x) == [n |-> Codes(x), mem |-> FALSE, rep |-> FALSE, dflt |-> FALSE]
+Fd(x) == [n |-> Codes(x), mem |-> FALSE, rep |-> FALSE, dflt |-> TRUE]           \* with an explicit default
+M(x) == [n |-> Codes(x), mem |-> TRUE, rep |-> FALSE, dflt |-> FALSE]
+\* nested messages ns with the fields nf, nested enums es with the values ev
+DclP(fs, o, ns, nf, es, ev) == [fields |-> fs, oname |-> o, nested |-> ns, enums |-> es, nfields |-> nf, evals |-> ev,
+                                exts |-> <<>>, tenum |-> <<>>]
+Dcl(fs, o, ns) == DclP(fs, o, ns, [k \in 1..Len(ns) |-> <<>>], <<>>, <<>>)
 Hostile == <<
   [cause |-> "protoreflect-unreserved",    at |-> "open",   d |-> Dcl(<<F("proto_reflect")>>, <<>>, <<>>)],
   [cause |-> "camelcase-suffix-collides",  at |-> "opaque", d |-> Dcl(<<F("foo"), F("Foo"), F("foo_1")>>, <<>>, <<>>)],
@@ -28,17 +32,24 @@ Hostile == <<
   [cause |-> "oneof-getter-unreserved",    at |-> "open",   d |-> Dcl(<<M("foo_"), F("get_foo")>>, Codes("Foo"), <<>>)],
   [cause |-> "oneof-camelcase-unresolved", at |-> "opaque", d |-> Dcl(<<M("foo")>>, Codes("Foo"), <<>>)],
   [cause |-> "oneof-wrapper-suffix",       at |-> "open",   d |-> Dcl(<<M("foo"), M("foo_")>>, Codes("bar"), <<Codes("Foo")>>)],
-  [cause |-> "nested-type-camelcase-collides", at |-> "hybrid", d |-> Dcl(<<F("foo")>>, <<>>, <<Codes("_foo"), Codes("X_foo")>>)] >>
+  [cause |-> "nested-type-camelcase-collides", at |-> "hybrid", d |-> Dcl(<<F("foo")>>, <<>>, <<Codes("_foo"), Codes("X_foo")>>)],
+  \* message M { optional int32 foo__foo = 1 [default = 7]; message Foo { optional int32 foo = 1 [default = 7]; } }
+  [cause |-> "default-const-collides",     at |-> "open",   d |-> DclP(<<Fd("foo__foo")>>, <<>>, <<Codes("Foo")>>, <<<<Codes("foo")>>>>, <<>>, <<>>)],
+  \* message M { optional int32 foo = 1; enum Bar { builder = 0; } }
+  [cause |-> "enum-value-const-collides",  at |-> "hybrid", d |-> DclP(<<F("foo")>>, <<>>, <<>>, <<>>, <<Codes("Bar")>>, <<<<Codes("builder")>>>>)] >>
 Clean == <<
   [at |-> "open",   d |-> Dcl(<<F("reset"), F("string"), F("descriptor")>>, <<>>, <<>>)],
   [at |-> "hybrid", d |-> Dcl(<<F("foo"), F("get_foo"), F("build")>>, <<>>, <<>>)],
   [at |-> "opaque", d |-> Dcl(<<F("_foo"), F("X_foo"), F("proto_message")>>, <<>>, <<>>)],
-  [at |-> "hybrid", d |-> Dcl(<<M("foo"), F("set_foo"), F("has_foo")>>, Codes("bar"), <<Codes("Foo")>>)] >>
+  [at |-> "hybrid", d |-> Dcl(<<M("foo"), F("set_foo"), F("has_foo")>>, Codes("bar"), <<Codes("Foo")>>)],
+  \* defaults and enum values that do not collide
+  [at |-> "opaque", d |-> DclP(<<Fd("foo"), Fd("Foo_Foo")>>, <<>>, <<Codes("Foo")>>, <<<<Codes("foo__foo")>>>>, <<Codes("Bar")>>, <<<<Codes("Foo_name")>>>>)] >>
 
 At(d, lv) == [level |-> lv] @@ d
 Causes(c) == {w.cause : w \in Why(c)}
 AllCauses == {"protoreflect-unreserved", "camelcase-suffix-collides", "hybrid-compat-getter", "struct-field-vs-accessor",
-              "oneof-getter-unreserved", "oneof-camelcase-unresolved", "oneof-wrapper-suffix", "nested-type-camelcase-collides"}
+              "oneof-getter-unreserved", "oneof-camelcase-unresolved", "oneof-wrapper-suffix", "nested-type-camelcase-collides",
+              "default-const-collides", "enum-value-const-collides"}
 
 \* the items: <<declaration, level>>
 Items == [k \in 1..(Len(Hostile) + Len(Clean)) |-> IF k <= Len(Hostile) THEN Hostile[k] ELSE Clean[k - Len(Hostile)]]
